@@ -155,6 +155,7 @@ func clientinfoProbe(r *rng, n int) error {
 			macs := []string{hx(r.bytes(6)), hx(r.bytes(6))}
 			ips := []string{"10.1.2.3", "192.168.1.77", "fd00::5", "172.16.0.9", "10.1.9.9", "8.8.4.4"}
 			nq := r.rng(2, 5)
+			noSources := r.coin(25) // localhost mode: no discovery source is configured (names can then not be known)
 			var qs, mq []string
 			for k := 0; k < nq; k++ {
 				ip := ips[r.intn(len(ips))]
@@ -169,10 +170,17 @@ func clientinfoProbe(r *rng, n int) error {
 				if r.coin(30) {
 					bm = append(bm, randName(r))
 				}
+				if noSources {
+					ba, bm = nil, nil
+				}
 				qs = append(qs, strings.Join([]string{ip, mac, hexList(ba), hexList(bm)}, ";"))
 				mq = append(mq, strings.Join([]string{sx(ip), hx(net.ParseIP(ip)), hx(ipNorm(net.ParseIP(ip))), mac, hexList(ba), hexList(bm)}, ";"))
 			}
-			res, err := ask("cis " + strings.Join(specs, ",") + " " + strings.Join(qs, " "))
+			cmdName := "cis "
+			if noSources {
+				cmdName = "cisn "
+			}
+			res, err := ask(cmdName + strings.Join(specs, ",") + " " + strings.Join(qs, " "))
 			if err != nil {
 				return err
 			}
